@@ -192,3 +192,59 @@ def build_map_then_int(path, a_values, null_count_a=None, rows_map=None):
     data += foot + struct.pack("<I", len(foot)) + b"PAR1"
     with open(path, "wb") as f:
         f.write(bytes(data))
+
+
+def build_map(path, rows, opt_map):
+    """one row group, one MAP<int64 required, int64 optional> column `m` plus a required INT64 column `x`;
+    rows = [(keys, values)] with None for a NULL map, [] for an empty one, None values for NULL values"""
+    from fastparquet import parquet_thrift as pt
+    base = 1 if opt_map else 0                     # definition level of "map present but empty"
+    kd, kr, kv, vd, vr, vv = [], [], [], [], [], []
+    for ks, vs in rows:
+        if ks is None:
+            kd.append(0); kr.append(0); vd.append(0); vr.append(0)
+        elif not ks:
+            kd.append(base); kr.append(0); vd.append(base); vr.append(0)
+        else:
+            for j, (k, v) in enumerate(zip(ks, vs)):
+                kd.append(base + 1); kr.append(0 if j == 0 else 1); kv.append(k)
+                vd.append(base + 2 if v is not None else base + 1); vr.append(0 if j == 0 else 1)
+                if v is not None:
+                    vv.append(v)
+    n = len(rows)
+    data = bytearray(b"PAR1")
+    chunks = []
+
+    def add(pathv, rep, de, width_d, vals, nvals):
+        start = len(data)
+        body = (_levels(rep, 1) if rep is not None else b"") + (_levels(de, width_d) if de is not None else b"") + \
+            b"".join(struct.pack("<q", v) for v in vals)
+        ph = pt.PageHeader(type=0, uncompressed_page_size=len(body), compressed_page_size=len(body),
+                           data_page_header=pt.DataPageHeader(num_values=nvals, encoding=0,
+                                                              definition_level_encoding=3,
+                                                              repetition_level_encoding=3, i32=1), i32=1)
+        blob = bytes(ph.to_bytes()) + body
+        data.extend(blob)
+        md = pt.ColumnMetaData(type=2, encodings=[0, 3], path_in_schema=pathv, codec=0, num_values=nvals,
+                               total_uncompressed_size=len(blob), total_compressed_size=len(blob),
+                               data_page_offset=start)
+        chunks.append(pt.ColumnChunk(file_offset=start, meta_data=md))
+
+    wk = max(base + 1, 1).bit_length()
+    wv = max(base + 2, 1).bit_length()
+    add(["m", "key_value", "key"], kr, kd, wk, kv, len(kd))
+    add(["m", "key_value", "value"], vr, vd, wv, vv, len(vd))
+    add(["x"], None, None, 0, [7 + i for i in range(n)], n)
+    rg = pt.RowGroup(columns=chunks, total_byte_size=len(data) - 4, num_rows=n)
+    schema = [pt.SchemaElement(name="schema", num_children=2),
+              pt.SchemaElement(name="m", num_children=1, repetition_type=1 if opt_map else 0, converted_type=1),
+              pt.SchemaElement(name="key_value", num_children=2, repetition_type=2),
+              pt.SchemaElement(name="key", type=2, repetition_type=0),
+              pt.SchemaElement(name="value", type=2, repetition_type=1),
+              pt.SchemaElement(name="x", type=2, repetition_type=0)]
+    fmd = pt.FileMetaData(version=1, schema=schema, num_rows=n, row_groups=[rg], created_by="spec-level builder",
+                          i32list=[1])
+    foot = bytes(fmd.to_bytes())
+    data += foot + struct.pack("<I", len(foot)) + b"PAR1"
+    with open(path, "wb") as f:
+        f.write(bytes(data))
